@@ -81,7 +81,8 @@ func checkC08(c *Ctx) {
 				pa = call
 			case "splitByJumpTargets":
 				sjt = call
-			case "split":
+			}
+			if isBlockListSplitter(f) {
 				split = call
 			}
 		}
@@ -119,21 +120,28 @@ func checkC08(c *Ctx) {
 			// receiver of split holds splitByJumpTargets' result
 			if okChain {
 				recv := split.Call.Args[0]
-				stored := false
-				if refs := recv.Referrers(); refs != nil {
+				// (a splitter working on a pointer gets the variable holding the
+				// list; one that returns the new list gets the list itself)
+				stored := DependsOn(recv, func(v ssa.Value) bool { return v == ssa.Value(sjt) })
+				if refs := recv.Referrers(); refs != nil && !stored {
 					for _, r := range *refs {
 						if st, ok := r.(*ssa.Store); ok && st.Addr == recv && DependsOn(st.Val, func(v ssa.Value) bool { return v == ssa.Value(sjt) }) {
 							stored = true
 						}
 					}
 				}
+				byValue := split.Type() != nil && split.Call.Signature().Results().Len() == 2
 				if !stored {
 					okChain, why = false, "the entry-point split is applied to something other than the jump-target split's result"
 				}
 				// returned sequences come from that same variable
 				for _, b := range p.Blocks {
 					if ret, ok := b.Instrs[len(b.Instrs)-1].(*ssa.Return); ok && IsNilConst(ret.Results[1]) {
-						if !DependsOn(ret.Results[0], func(v ssa.Value) bool { return v == recv }) || !InstrDominates(split, ret) {
+						src := recv
+						if byValue {
+							src = ssa.Value(split) // the list the splitter hands back
+						}
+						if !DependsOn(ret.Results[0], func(v ssa.Value) bool { return v == src }) || !InstrDominates(split, ret) {
 							okChain, why = false, "the returned blocks are not the ones left after the entry-point split"
 						}
 					}
@@ -152,12 +160,8 @@ func checkC08(c *Ctx) {
 			if !ok || bi.Name() != "append" {
 				continue
 			}
-			inLoop := false
-			for _, l := range loops {
-				if LoopBlocks(l.Header)[cs.Block()] {
-					inLoop = true
-				}
-			}
+			_ = loops
+			inLoop := inAnyLoop(cs.Block()) // whatever the loop's form
 			if !inLoop {
 				continue
 			}
@@ -191,12 +195,8 @@ func checkC08(c *Ctx) {
 			if !ok || bi.Name() != "append" {
 				continue
 			}
-			inLoop := false
-			for _, l := range loops {
-				if LoopBlocks(l.Header)[cs.Block()] {
-					inLoop = true
-				}
-			}
+			_ = loops
+			inLoop := inAnyLoop(cs.Block()) // whatever the loop's form
 			if !inLoop {
 				continue
 			}
@@ -221,7 +221,7 @@ func checkC08(c *Ctx) {
 		n := 0
 		for _, cs := range Calls(st) {
 			f := Callee(cs.Common())
-			if f == nil || NameOf(Origin(f)) != "split" {
+			if f == nil || !isBlockListSplitter(f) {
 				continue
 			}
 			n++
@@ -1231,4 +1231,43 @@ func checkNoGrowthWhileRanging(c *Ctx, rule string, pkgs []string) {
 	}
 	c.Oblige(rule, "loops-with-fixed-trip-count", "", true, "")
 	c.RequireCount(rule+" fixed-trip loops over slices in deps/basicblock", n, 10)
+}
+
+// inAnyLoop: b lies in some natural loop of its function.
+func inAnyLoop(b *ssa.BasicBlock) bool {
+	for _, h := range b.Parent().Blocks {
+		isHeader := false
+		for _, p := range h.Preds {
+			if h.Dominates(p) {
+				isHeader = true
+			}
+		}
+		if isHeader && LoopBlocks(h)[b] {
+			return true
+		}
+	}
+	return false
+}
+
+// isBlockListSplitter: by role, the function of package basicblock that
+// splits the block containing an address: its first parameter is the list of
+// blocks (or a pointer to it), its last one the address.
+func isBlockListSplitter(f *ssa.Function) bool {
+	f = Origin(f)
+	if f == nil || PkgPathOf(f) != ModulePath+"/"+pkgBB || len(f.Params) != 2 {
+		return false
+	}
+	t := f.Params[0].Type()
+	if p, ok := t.(*types.Pointer); ok {
+		t = p.Elem()
+	}
+	n, ok := t.(*types.Named)
+	if !ok {
+		return false
+	}
+	if _, isSlice := n.Underlying().(*types.Slice); !isSlice {
+		return false
+	}
+	a, ok := f.Params[1].Type().(*types.Named)
+	return ok && a.Obj().Name() == "Addr"
 }
